@@ -140,7 +140,15 @@ def memo_exempt(ev, repo=None) -> bool:
     (a width-only key for a (width, polynomial) table; a word-only key for a per-class verdict) is reported.  A `cls` that can
     only be one class (no subclass in the library) is a constant."""
     n = ev.node
-    if not (isinstance(n, ast.Assign) and len(n.targets) == 1 and isinstance(n.targets[0], ast.Subscript)):
+    key_expr = value_expr = None
+    if isinstance(n, ast.Assign) and len(n.targets) == 1 and isinstance(n.targets[0], ast.Subscript):
+        key_expr, value_expr = n.targets[0].slice, n.value
+    else:
+        # the same store spelt `TABLE.setdefault(key, value)` (bare, or as the value of an assignment / return)
+        c = n if isinstance(n, ast.Call) else getattr(n, "value", None)
+        if isinstance(c, ast.Call) and isinstance(c.func, ast.Attribute) and c.func.attr == "setdefault" and len(c.args) == 2 and not c.keywords:
+            key_expr, value_expr = c.args
+    if key_expr is None:
         return False
     fn = ev.fi.node
     a = fn.args
@@ -260,7 +268,7 @@ def memo_exempt(ev, repo=None) -> bool:
             return {d} if d and d not in attr_stores and not any(d.startswith(x + ".") or x.startswith(d + ".") for x in attr_stores) else set()
         return set()
 
-    keep = preserved(n.targets[0].slice)
+    keep = preserved(key_expr)
     if not keep:
         return False
     const_cls = False
@@ -324,7 +332,7 @@ def memo_exempt(ev, repo=None) -> bool:
                 out |= leaves(c.value if isinstance(c, ast.keyword) else c, bound)
         return out
 
-    return not leaves(n.value, frozenset())
+    return not leaves(value_expr, frozenset())
 
 
 def crc_reset_rule(ctx, repo, eff):
@@ -645,6 +653,13 @@ def args_rules(ctx, repo, eff):
                 seen_exc.add((f.qualname, p))
                 ctx.ob("args/exception-is-local", f"{f.qualname}({p})", bool(evs), f"{exc}; effect: {evs[0].how if evs else 'NOT FOUND — the table entry is stale'}", f.loc)
                 continue
+            if evs and not callers.get(f.qualname) and f.name.startswith(("fill_", "set_")) and p in eff.summ[f.qualname].ret_own:
+                # an output-parameter builder that no library function calls (any more): it fills the object it is handed and returns that
+                # very object, which is what its name says — not an encode / decode / check entry point.  (The verdict about an
+                # unchanged helper must not flip because a refactoring removed its last caller.)
+                internal += 1
+                ctx.info(f"{f.qualname}({p}) fills and returns the object it is handed ({evs[0].how}); no library caller — output-parameter builder")
+                evs = []
             if evs and callers.get(f.qualname) and f.qualname not in passed_on:
                 internal += 1
                 ctx.info(f"{f.qualname}({p}) works in place on its argument ({evs[0].how}); all {len(callers[f.qualname])} library caller(s) pass objects they created themselves — internal output-parameter helper")
@@ -844,7 +859,7 @@ def positive_controls(ctx):
         got = f is not None and co in peff.summ[f.qualname].ret_own
         ctx.ob("engine/positive-controls", f"probe.py {fn} (cached result {'handed out' if want else 'copied: pure twin'})", f is not None and got == want,
                "as expected" if got == want else "the engine gave the wrong answer for a cached result returned to the caller", "")
-    for fn, want in (("good_derived", True), ("bad_partial_key", False), ("bad_lossy_key", False)):
+    for fn, want in (("good_derived", True), ("bad_partial_key", False), ("bad_lossy_key", False), ("good_setdefault", True), ("bad_setdefault", False)):
         evs = [e for e in peff.events.values() if e.fi.name == fn and e.origin[0] == "S"]
         got = bool(evs) and all(memo_exempt(e, prepo) for e in evs)
         ctx.ob("engine/positive-controls", f"probe.py Memo.{fn} (memo rule: {'exempt' if want else 'reported'})", bool(evs) and got == want,
